@@ -100,6 +100,14 @@ func c06v6(rec *obs.Rec, b []byte) *obs.Fail {
 	if later := m1.ToBytes(); !bytes.Equal(later, b1) {
 		return obs.Failf("C06/v6/stored-message-changed", "a stored message encodes the same after its receive buffer was reused", "differs at byte %d", firstDiff(later, b1))
 	}
+	// a stored message whose name values refused another input in the meantime still encodes the same
+	if kept, changed := pokeNames(m1); changed == 0 && kept > 0 {
+		if later := m1.ToBytes(); !bytes.Equal(later, b1) {
+			return obs.Failf("C06/v6/stored-message-changed/after-refused-input", "a stored message encodes the same after its name values refused another input", "differs at byte %d", firstDiff(later, b1))
+		}
+	} else if changed > 0 {
+		m1, _ = dhcpv6.FromBytes(append([]byte{}, b...))
+	}
 	m2, err := dhcpv6.FromBytes(append([]byte{}, b1...))
 	if err != nil {
 		return obs.Failf("C06/v6/reencoded-rejected", "re-encoded message decodes", "error %v (re-encoding %x)", err, clipb(b1))
